@@ -25,9 +25,12 @@ type c14op struct {
 	plans []c10plan // one per response of o, in o.Responses order
 }
 
+// c14RefAllPrims: primitive properties and items of the bodies are components used by $ref (C18's reference-rich documents)
+var c14RefAllPrims bool
+
 // c14Package: one random kitchen-sink document
 func c14Package(rng *rand.Rand, idx int) (rcase, []c14op) {
-	g := &jgen{rng: rng, noNullAny: true}
+	g := &jgen{rng: rng, noNullAny: true, refAllPrims: c14RefAllPrims}
 	sp := &dialect.Spec{CompParams: map[string]dialect.Param{}, CompResponses: map[string]dialect.Response{}, CompHeaders: map[string]dialect.Header{}}
 	bf := baseForms[idx%len(baseForms)]
 	sp.ServerURL, sp.ServerVar = bf.Server, bf.Vars
